@@ -246,7 +246,13 @@ def run(ctx):
                     ctx.ob('C23-D1', name, callee, 'map_err', okm, detail='mapped by %s' % fnitem, site=loc(mt['span']), nontrivial=False)
                     continue
                 cfn = prog.fn(cl)
-                inspects = any(b['t']['k'] == 'switch' for b in cfn.B)
+                pname = cfn.name_of(2) if cfn.argc >= 2 else None
+                inspects = False
+                for b in cfn.B:
+                    if b['t']['k'] == 'switch':
+                        dt = T.op_term(cfn, b['t']['d'])
+                        if pname and re.search(r'(^|[(,.!])%s([).,]|$)' % re.escape(pname), dt) and dt.startswith(('discr(', 'matches', 'PartialEq')):
+                            inspects = True
                 builds = [rv.get('variant') for b in cfn.B for dst, rv in b['s'] if rv['k'] == 'agg' and str(rv.get('adt', '')).endswith('error::Error')]
                 returns_param = not builds
                 okm = inspects or returns_param or builds == ['OperationCancelled']
